@@ -55,6 +55,35 @@ theorem joinWith_hom {β} (F : Str → Str) (f g : β → Str) (sep sep' : Str) 
       simp only [List.append_assoc]
       rw [hitem y (by simp), hW, hsep z (by simp), ← hW, ih' Z]
 
+/-- `joinWith_hom` with an invariant `P` on what follows an item (e.g. "starts with a quote") -/
+theorem joinWith_hom_ctx {β} (P : Str → Prop) (F : Str → Str) (f g : β → Str) (sep sep' : Str) (ys : List β)
+    (hP : ∀ y ∈ ys, ∀ W, P (sep ++ (f y ++ W)))
+    (hitem : ∀ y ∈ ys, ∀ Z, P Z → F (f y ++ Z) = g y ++ F Z)
+    (hsep : ∀ y ∈ ys, ∀ W, P W → F (sep ++ (f y ++ W)) = sep' ++ F (f y ++ W)) :
+    ∀ Z, P Z → F (joinWith sep (ys.map f) ++ Z) = joinWith sep' (ys.map g) ++ F Z := by
+  induction ys with
+  | nil => intro Z _; simp
+  | cons y r ih =>
+    intro Z hZ
+    cases r with
+    | nil => simpa using hitem y (by simp) Z hZ
+    | cons z r =>
+      have ih' := ih (fun y hy => hP y (by simp [hy])) (fun y hy => hitem y (by simp [hy]))
+        (fun y hy => hsep y (by simp [hy])) Z hZ
+      -- what follows `f y`: the separator, then `f z`, then something satisfying `P`
+      have hW : ∃ W, joinWith sep ((z :: r).map f) ++ Z = f z ++ W ∧ P W := by
+        cases r with
+        | nil => exact ⟨Z, by simp, hZ⟩
+        | cons w r =>
+          refine ⟨sep ++ (joinWith sep ((w :: r).map f) ++ Z), by simp [joinWith_cons_cons, List.append_assoc], ?_⟩
+          obtain ⟨W', hW'⟩ := joinWith_map_head f sep w r Z
+          rw [hW']; exact hP w (by simp) W'
+      obtain ⟨W, hWe, hWP⟩ := hW
+      simp only [List.map_cons] at ih' hWe ⊢
+      rw [joinWith_cons_cons, joinWith_cons_cons]
+      simp only [List.append_assoc]
+      rw [hitem y (by simp) _ (by rw [hWe]; exact hP z (by simp) W), hWe, hsep z (by simp) W hWP, ← hWe, ih']
+
 theorem joinWith_append {sep : Str} {x y : List Str} (hx : x ≠ []) (hy : y ≠ []) :
     joinWith sep (x ++ y) = joinWith sep x ++ sep ++ joinWith sep y := by
   induction x with
@@ -158,5 +187,11 @@ theorem chunks_flatten {α} (k n : Nat) (l : List α) (hl : l.length = n * k) : 
   | succ n ih =>
     simp only [chunks, List.flatten_cons]
     rw [ih (l.drop k) (by rw [List.length_drop, hl, Nat.succ_mul]; omega), List.take_append_drop]
+
+theorem chunks_map {α β} (f : α → β) (k n : Nat) (l : List α) :
+    chunks k n (l.map f) = (chunks k n l).map (List.map f) := by
+  induction n generalizing l with
+  | zero => rfl
+  | succ n ih => simp only [chunks, List.map_cons, ← List.map_take, ← List.map_drop, ih]
 
 end ArrModel.C18
